@@ -187,16 +187,31 @@ prop("C10", level="proof",
             "generate_graph", "get_evaluable_architecture"],
      bounded=[_b("projects", "bounded_externals")], trusted_base=_TB)
 prop("C05", level="other",
-     level_text="Mixed. PROVED: the layer detector's treatment of same-layer pairs -- LayerRuleViolationDetector._get_realised_dependencies keeps exactly the reported pairs that cross a layer "
-                "boundary; the forbidden-import buckets are exactly those; _get_any_missing_dependencies_in_user_specified_order: the required access to 'something else' is satisfied only by an "
-                "import that leaves the layer; _append_missing_dependencies; the LayerRule ordering guards; the lowered Rule pipeline (shared with C01). The layer lookup "
-                "(LayerMapping.get_layer_for_module_name) enters these proofs as ONE uninterpreted function; WHAT that function is, is proved on the real code in the string view: "
-                "LayerMapping.__init__ establishes the lookup structure's well-formedness from a layer definition with unique identifiers, and get_layer_for_module_name returns the layer that "
-                "lists the module, else the layer of a listed DOTTED ancestor (the walk down from the bisect position meets every listed dotted ancestor), LayerMismatch iff two layers qualify, "
-                "None iff none does (sorted / bisect and two facts about str order assumed). BOUNDED: regex-layer replacement, grouping by layers, and the "
-                "end-to-end verdict: random layer partitions (name lists, regex, mixed, unmentioned layers, modules in no layer) on graphs with prefix-named siblings; the real LayerRule "
-                "outcome is compared with the documented layer semantics for all 12 shapes and the two 'any layer' aliases.",
-     level_note=_BND_NOTE, technique=_BND_TECH, explanation="layer rule verdicts", roots=["LayerRuleViolationDetector._get_realised_dependencies", "LayerRuleViolationDetector._get_any_missing_dependencies_in_user_specified_order", "LayerRule.based_on"], bounded=[_b("layers", "bounded_layer_verdicts")], trusted_base=_TB)
+     level_text="Mixed, mostly proved; the end-to-end composition stays bounded. PROVED (names and layer names uninterpreted): every method of LayerRuleViolationDetector with an EXACT "
+                "postcondition (both inclusions) over the layer lookup layer_of(mapping, name) and the query results -- __init__; _get_realised_dependencies keeps exactly the reported pairs that "
+                "cross a layer boundary; the four forbidden-import buckets are exactly those; _group_explicitly_requested_dependencies_by_layers puts every abstract pair into exactly the group "
+                "of its rule OBJECT's layer (None = in no layer); _get_abstract_dependencies_without_any_realisations reports all pairs of an object layer iff the layer is a layer of the "
+                "mapping and NONE of its pairs is realised ('access' needs one import per named object layer); _get_any_missing_dependencies_in_user_specified_order / _append_missing_dependencies: "
+                "one (subject module, object) pair per key iff NO reported other-import leaves the layer (an intra-layer import never counts as access to something else); the four "
+                "missing-import buckets; get_rule_violation re-verified with the layer detector as receiver (all eight buckets). LayerRuleMatcher: __init__, "
+                "_replace_regex_specified_modules_with_actual_modules (named filters as themselves, a regex filter as the modules the conversion table lists for it, NOTHING and no error when the "
+                "table has no entry: an unmentioned regex layer), _update_layer_mapping (total; same layers, each with its expanded modules), _get_rule_violation_detector, the conversion table, and "
+                "_find_rule_violations: the eight buckets as functions of the GRAPH and the updated layer mapping (glue lemmas LL_*). LayerRule.__init__ and the builder steps. String view: "
+                "LayerMapping.__init__ / _get_layer / _get_layer_or_none / get_layer_for_module_name (the layer that lists the module, else the layer of a listed DOTTED ancestor; LayerMismatch iff two "
+                "qualify; sorted / bisect and two facts about str order assumed), all_layers, get_module_filters. LEMMA C05_verdict_is_documented_layer_semantics: for a well-formed graph, pairwise "
+                "disjoint layers, the subject layer not among the object layers, and the by-name link 'layer_of(L, n) is the layer whose listed modules have n as a descendant', the bucket "
+                "specification is violated iff the documented semantics (access / other over Lay = listed modules and descendants) is, for 8 of the 12 shapes: should_not, should ... except, "
+                "should_only ... except, should_not ... except, in both directions. BOUNDED (not proved): 'should' and 'should_only' without except at lemma level (their buckets are proved, the "
+                "missing-access lemma is not), the two 'any layer' aliases, and the COMPOSITION LayerRule.assert_applies -> Rule.assert_applies -> LayerRuleMatcher.match (the layer matcher is "
+                "instantiated through functools.partial; the hypotheses of the lemma -- the converted filters list exactly the modules of the mentioned layers -- are established function by "
+                "function but not composed), LayeredArchitecture.layer_mapping, Rule._add_modules: random layer partitions (name lists, regex, mixed, unmentioned layers, modules in no layer) on "
+                "graphs with prefix-named siblings; the real LayerRule outcome is compared with the documented layer semantics for all 12 shapes and the two 'any layer' aliases.",
+     level_note=_BND_NOTE + "Assumed in the default view: LayerMapping(dict) yields a mapping whose observers (all_layers, get_module_filters) return the dict's keys / values (proved on the real "
+                "class in the string view; the two views are linked by name, not by proof); the lookup of a mapping never raises LayerMismatch there (disjoint layers).",
+     technique=_BND_TECH, explanation="layer rule verdicts",
+     roots=["LayerRuleViolationDetector.get_rule_violation", "LayerRuleMatcher._find_rule_violations", "LayerRuleMatcher._update_layer_mapping", "LayerRuleViolationDetector._get_realised_dependencies",
+            "LayerRuleViolationDetector._get_any_missing_dependencies_in_user_specified_order", "LayerRule.based_on", "C05_verdict_is_documented_layer_semantics"],
+     bounded=[_b("layers", "bounded_layer_verdicts")], trusted_base=_TB)
 prop("C06", level="other",
      level_text="Mixed. PROVED (string view): (1) the structure of PumlParser.parse around the regex tokenisation: the file text is read and stripped, a text without '@startuml <non-empty> @enduml' "
                 "(re.search with the tag regex the source builds, DOTALL) raises PumlParsingError and is never parsed to an empty diagram, otherwise exactly group 1 -- the text between the tags -- is "
